@@ -22,7 +22,7 @@ DRIVERS = [
     ("std-analytic-nonuniform-late", "std", "G2n", {"nlive": 50, "checkpoint_interval": 30, "analytic_priors": True, "flow_config": {"ftype": "maf"}}, 4, 3),
     ("std-gw-late", "std", "GW5", {"nlive": 60, "checkpoint_interval": 40, "flow_proposal_class": "GWFlowProposal"}, 3, 2),
 ]
-QUICK = ["std-early-checkpoint", "std-late-checkpoint-and-weights", "ins-late-keep-old", "ins-early"]
+QUICK = ["std-early-checkpoint", "std-late-checkpoint-and-weights", "ins-late-keep-old", "ins-early", "ins-late-overwrite"]
 
 
 def driver_worker(case):
